@@ -238,8 +238,8 @@ impl NewCase {
                         "new|no-progress",
                         format!(
                             "[{engine}] `{argv}`: no exit within {} scheduling steps / {} further entropy requests after every entropy response became a match ({})",
-                            self.e2.as_ref().map(|e| e.generous_bound).unwrap_or(0),
-                            self.e2.as_ref().map(|e| e.generous_requests).unwrap_or(0),
+                            self.e2.as_ref().map(|e| e.generous_bound).unwrap_or((64 * (self.workers().min(64) + 2)) as u32),
+                            self.e2.as_ref().map(|e| e.generous_requests).unwrap_or((2 * (self.workers().min(64) + 2)) as u32),
                             h.detail
                         ),
                     );
@@ -514,6 +514,21 @@ impl NewCase {
                 // task the failure was delivered to had run to completion (so whatever it does to
                 // report the failure was done) before the winning value was even delivered to
                 // anyone, the command knew of the failure before any result existed and must fail.
+                // ... nor may the searcher it was reported to simply carry on drawing
+                for f in &fail_events {
+                    if let Some(later) = o.ent.iter().find(|ev| ev.task == f.task && ev.seq > f.seq) {
+                        rep.violate(
+                            "C12",
+                            "entropy-failure-retried",
+                            "new|retried",
+                            format!(
+                                "[{engine}] `{argv}`: entropy request #{} of task {} failed (errno {}), yet the same task went on to request #{} and the command exits 0 with a phrase",
+                                f.seq, f.task, f.errno, later.seq
+                            ),
+                        );
+                        break;
+                    }
+                }
                 if let (Some(h), Some((_, e))) = (&o.e2, &printed) {
                     let hexe = hex::encode(e);
                     let first_delivery = h.entropy.iter().filter(|ev| ev.ok && ev.bytes == hexe).map(|ev| ev.step).min();
@@ -770,6 +785,7 @@ impl NewCase {
         rep.event_hash = eh.finish();
         rep.history = json!(hist);
         rep.explicit_choices = o.e2.as_ref().map(|h| h.choices.clone());
+        rep.schedule_id = o.e2.as_ref().filter(|h| !h.choices.is_empty()).map(|h| crate::prng::fnv1a(format!("{}|{:?}", h.sched_hash, h.choices).as_bytes()));
         Ok(rep)
     }
 
